@@ -315,7 +315,7 @@ fn step_inner(r: &mut Real, m: &mut Model, op: &Op, cx: &mut Ctx) -> bool {
             exp.events.push(ExpEv::Alloc { size: il.size(), align: il.align() });
             let nb = compare(&exp, &delta(&s), LIFETIME | CTOR, false, &what, cx);
             let Some(&block) = nb.first() else {
-                std::mem::forget(h);
+                cap(|| release_real(h)); // nothing may leak into the next execution
                 return false;
             };
             m.slots[slot] = Some(MA { hid: first, eids: (0..n as u32).map(|i| first + 1 + i).collect(), val: 0, owners: 1, block });
